@@ -344,6 +344,9 @@ func runCase(f []string) string {
 		}
 		return fmt.Sprintf("ok %d %d", math.Float64bits(v), p)
 	}
+	if r, ok := runCaseFp(f); ok {
+		return r
+	}
 	if r, ok := runCase2(f); ok {
 		return r
 	}
